@@ -244,8 +244,20 @@ func (w *World) rulesParsePkg(p *Pkg, out *[]Obligation) {
 		be, ok := ifs.Cond.(*ast.BinaryExpr)
 		okc := ok && be.Op == token.NEQ && identObj(info, be.X) == errObj && isNilIdent(info, be.Y)
 		okr := false
-		if len(ifs.Body.List) == 1 {
-			if rs, ok := ifs.Body.List[0].(*ast.ReturnStmt); ok && len(rs.Results) == 2 && isNilIdent(info, rs.Results[0]) && identObj(info, rs.Results[1]) == errObj {
+		var bodyStmts []ast.Stmt
+		for _, bs := range ifs.Body.List {
+			// calls into other packages (e.g. returning a buffer to its pool) before the return are irrelevant here
+			if es, ok := bs.(*ast.ExprStmt); ok {
+				if c, ok := es.X.(*ast.CallExpr); ok {
+					if fn := calleeOf(info, c); fn != nil && fn.Pkg() != p.P.Types {
+						continue
+					}
+				}
+			}
+			bodyStmts = append(bodyStmts, bs)
+		}
+		if len(bodyStmts) == 1 {
+			if rs, ok := bodyStmts[0].(*ast.ReturnStmt); ok && len(rs.Results) == 2 && isNilIdent(info, rs.Results[0]) && identObj(info, rs.Results[1]) == errObj {
 				okr = true
 			}
 		}
